@@ -72,7 +72,13 @@ Finish ==
     /\ pc' = "done"
     /\ UNCHANGED <<table, config, ys, order, accL, accD>>
 
-PNext == RunCall \/ EndRun \/ (\E k \in 1..Len(ys) : Collect(k)) \/ Finish
+\* a completed run stutters (so that TLC's deadlock check means: no run gets stuck before completion)
+Terminated == pc = "done" /\ UNCHANGED pvars
+
+PNext == RunCall \/ EndRun \/ (\E k \in 1..Len(ys) : Collect(k)) \/ Finish \/ Terminated
+
+\* every run completes: all results are yielded and collected, whatever the configuration contains
+Termination == <>(pc = "done")
 
 -----------------------------------------------------------------------------
 (* Invariants                                                              *)
